@@ -135,12 +135,20 @@ structure Sig where
   key : Key
   forOut : Out
   msg : Preimage
+  /-- account version whose signing protocol was used: 0 = ECDSA over the p2wsh witness script, 1 = MuSig2
+  v0.4.0 session, 2 = MuSig2 v1.0.0-rc2 session (`account.Version.ScriptVersion()` of the STORED account) -/
+  sver : Nat := 0
 deriving DecidableEq, Repr
 
 /-- a signature helps to spend output `out` with message `m` iff it was made by `pk` for exactly that output's
 script context over exactly `m` -/
 def Sig.verify (pk : Key) (out : Out) (m : Preimage) (σ : Sig) : Bool :=
   σ.key == pk && σ.forOut == out && σ.msg == m
+
+/-- … and only if it was made with the signing protocol of the version of the output being spent (a MuSig2
+v1.0.0-rc2 partial signature does not combine for an output whose aggregate key is a v0.4.0 one) -/
+def Sig.verifyV (pk : Key) (out : Out) (ver : Nat) (m : Preimage) (σ : Sig) : Bool :=
+  σ.verify pk out m && σ.sver == ver
 
 /-! ## Database and manager state -/
 
@@ -258,13 +266,13 @@ def signLoop (db : DB) (b : Batch) (f : Faults) :
           -- MuSig2Sign
           let c3 : Ctr := { c2 with calls := c2.calls + 1 }
           if f.sf = some c2.calls then (.err .signer, c3) else
-          let σ : Sig := ⟨a.key, a.out, preimage true htTaproot b.tx idx (b.prevOuts.take b.tx.ins.length)⟩
+          let σ : Sig := ⟨a.key, a.out, preimage true htTaproot b.tx idx (b.prevOuts.take b.tx.ins.length), a.version⟩
           signLoop db b f rest c3 (σ :: sigs) (a.key :: nonces)
         else
           -- SignOutputRaw with HashType from the source, Output = the account's current output
           let c2 : Ctr := { c1 with calls := c1.calls + 1 }
           if f.sf = some c1.calls then (.err .signer, c2) else
-          let σ : Sig := ⟨a.key, a.out, preimage false htP2wsh b.tx idx [a.out]⟩
+          let σ : Sig := ⟨a.key, a.out, preimage false htP2wsh b.tx idx [a.out], a.version⟩
           signLoop db b f rest c2 (σ :: sigs) nonces
 
 def signerSign (db : DB) (b : Batch) (f : Faults) : SignRes × Ctr :=
